@@ -10315,7 +10315,7 @@ bool SoPlexBase<R>::writeBasisFile(const char* filename, const NameSet* rowNames
             assert(row != numRows);
 
             if(_basisStatusRows[row] == SPxSolverBase<R>::ON_UPPER && (!cpxFormat
-                  || _rowTypes[row] == SoPlexBase<R>::RANGETYPE_BOXED))
+                  || _rangeTypeReal(_realLP->lhs(row), _realLP->rhs(row)) == SoPlexBase<R>::RANGETYPE_BOXED))
                file << " XU ";
             else
                file << " XL ";
@@ -10325,7 +10325,7 @@ bool SoPlexBase<R>::writeBasisFile(const char* filename, const NameSet* rowNames
             if(colNames != nullptr && colNames->has(col))
                file << (*colNames)[col];
             else
-               file << "x" << col;
+               file << (std::string("x") + std::to_string(col));
 
             file << "       ";
 
@@ -10342,8 +10342,6 @@ bool SoPlexBase<R>::writeBasisFile(const char* filename, const NameSet* rowNames
             if(_basisStatusCols[col] == SPxSolverBase<R>::ON_UPPER)
             {
                file << " UL ";
-
-               file << std::setw(8);
 
                if(colNames != nullptr && colNames->has(col))
                   file << (*colNames)[col];
